@@ -86,7 +86,8 @@ package ast
 //@ ghost var $resN array[Ref]int          // per variable: successful evaluations (resolutions) so far
 //@ ghost var $resCtx array[Ref]Ref        // per variable: the data context of its last successful resolution
 //@ macro func reslogMono() bool { return (forall v *Variable {$resN[v]} :: $resN[v] >= old($resN[v])) && $getN >= old($getN) && $fldN >= old($fldN) && $idxN >= old($idxN) && $selN >= old($selN) && $valN >= old($valN) }
-//@ modset reslog = $getN, $getCtx, $getKey, $getRes, $fldN, $fldNode, $fldName, $fldRes, $idxN, $idxNode, $idxIndex, $idxRes, $selN, $selNode, $selKey, $selRes, $valN, $valNode, $valRes, $resN, $resCtx
+// ($allocated rides along: argument lists are made with make(); only the loaders (C20) reason about the count, and they never evaluate)
+//@ modset reslog = $allocated, $getN, $getCtx, $getKey, $getRes, $fldN, $fldNode, $fldName, $fldRes, $idxN, $idxNode, $idxIndex, $idxRes, $selN, $selNode, $selKey, $selRes, $valN, $valNode, $valRes, $resN, $resCtx
 //@ modset actlog = @setlog, @asglog, $exprRes, $varRes, $atomRes, @reslog
 // failures are counted outside every modset: only the functions that list the counters may change them, and an evaluation that
 // returns nil has swallowed no failure of a nested evaluation (C14)
@@ -252,6 +253,7 @@ package ast
 //@   modifies @memo, $exprRes, $varRes, $atomRes, @reslog, $atomErrN
 //@   ensures[C14] noswallow: err == nil ==> $atomErrN == old($atomErrN)
 //@   ensures receiver: e != nil
+//@   ensures mono: reslogMono()
 //@   ensures rank: forall x *Expression :: $height[x] > $height[e] ==> x.Evaluated == old(x.Evaluated) && x.Value == old(x.Value)
 //@   ghost_entry $depth = $depth + 1
 //@   ghost_exit $depth = $depth - 1
@@ -455,9 +457,10 @@ package ast
 // the owner's current node and the selector value just evaluated - and returns (and stores) the value that node holds now.
 // The frame / monotonicity / rank clauses about what the recursion touches stay ASSUMED.
 //@ func (e *Variable) Evaluate(dataContext, memory) (val, err)
-//@   serves C01 C02
-//@   requires treeWF()
-//@   modifies @memo, $varRes, $exprRes, $atomRes, @reslog
+//@   serves C01 C02 C14
+//@   requires $depth >= 0 && treeWF()
+//@   modifies @memo, $varRes, $exprRes, $atomRes, @reslog, $atomErrN
+//@   ensures[C14] noswallow: err == nil ==> $atomErrN == old($atomErrN)
 //@   ghost_exit $varRes = ite(err == nil, store($varRes, e, val), $varRes)
 //@   ghost_exit $resN = ite(err == nil, store($resN, e, $resN[e] + 1), $resN)
 //@   ghost_exit $resCtx = ite(err == nil, store($resCtx, e, dataContext), $resCtx)
@@ -469,21 +472,29 @@ package ast
 //@   checks[C01,C02] member: err == nil && e.Variable != nil && len(e.Name) > 0 ==> $fldN > old($fldN) && $fldNode == e.Variable.ValueNode && $fldName == e.Name && e.ValueNode == $fldRes && $valN > old($valN) && $valNode == e.ValueNode && val == $valRes && e.Value == val
 //@   checks[C01,C02] element: err == nil && e.Variable != nil && len(e.Name) == 0 && e.ArrayMapSelector != nil ==> (($idxN > old($idxN) && $idxNode == e.Variable.ValueNode && e.ValueNode == $idxRes) || ($selN > old($selN) && $selNode == e.Variable.ValueNode && e.ValueNode == $selRes)) && $valN > old($valN) && $valNode == e.ValueNode && val == $valRes && e.Value == val
 //@   checks[C01,C02] shape: err == nil ==> (len(e.Name) > 0) || (e.Variable != nil && e.ArrayMapSelector != nil)
-//@ extern func (e *ArrayMapSelector) Evaluate(dataContext, memory) (val, err)
-//@   modifies @memo, $exprRes, $varRes, $atomRes, @reslog
-//@   ensures forall x *Expression :: old(x.Evaluated) ==> x.Evaluated && x.Value == old(x.Value)
-//@   ensures forall a *ExpressionAtom :: old(a.Evaluated) ==> a.Evaluated && a.Value == old(a.Value)
-//@   ensures err == nil ==> e.Value == val
-//@   ensures atomsAboveUntouched(e)
-//@   ensures reslogMono()
-//@   ensures forall v *Variable {$resCtx[v]} :: $resCtx[v] == old($resCtx[v]) || $resCtx[v] == dataContext
+// ArrayMapSelector.Evaluate is CHECKED against its body (it was an assumed contract): a selector evaluates to exactly what its
+// selector expression evaluates to, remembers that value, and returns nil ONLY when the selector expression was evaluated
+// successfully (errorkeeps + memoset of Expression.Evaluate: a failed expression is not marked evaluated, so a swallowed
+// failure cannot satisfy `selectorvalue`). The rank clause and the resolution-context clause stay ASSUMED (A-NESTED, A-TREE).
+//@ func (e *ArrayMapSelector) Evaluate(dataContext, memory) (val, err)
+//@   serves C01 C02 C13 C14
+//@   requires $depth >= 0 && treeWF()
+//@   modifies @memo, $exprRes, $varRes, $atomRes, @reslog, $atomErrN
+//@   ensures monoE: forall x *Expression :: old(x.Evaluated) ==> x.Evaluated && x.Value == old(x.Value)
+//@   ensures monoA: forall a *ExpressionAtom :: old(a.Evaluated) ==> a.Evaluated && a.Value == old(a.Value)
+//@   ensures remembered: err == nil ==> e.Value == val
+//@   ensures[C01,C02,C14] selectorvalue: err == nil ==> e.Expression != nil && e.Expression.Evaluated && val == e.Expression.Value
+//@   ensures[C14] noswallow: err == nil ==> $atomErrN == old($atomErrN)
+//@   trusted_ensures atomsAboveUntouched(e)
+//@   ensures mono: reslogMono()
+//@   trusted_ensures forall v *Variable {$resCtx[v]} :: $resCtx[v] == old($resCtx[v]) || $resCtx[v] == dataContext
 // ExpressionAtom.Evaluate: the memo discipline is CHECKED against the body (memo hit does no work; the flag is only ever
 // set together with the value that is returned, never on an error path; every memoising branch sets it on success). The
 // A-NESTED / monotonicity / rank clauses callers rely on stay ASSUMED (trusted_ensures): they are about what the callees
 // below (variables, selectors, user functions reached through ValueNode.CallFunction) may touch.
 //@ func (e *ExpressionAtom) Evaluate(dataContext, memory) (val, err)
 //@   serves C01 C02 C13 C14
-//@   requires treeWF()
+//@   requires $depth >= 0 && treeWF()
 //@   modifies @actions, $atomErrN
 //@   ensures[C14] noswallow: err == nil ==> $atomErrN == old($atomErrN)
 //@   trusted_ensures atomsAboveUntouched(e)
@@ -517,12 +528,33 @@ package ast
 //@   ghost_exit $getCtx = d
 //@   ghost_exit $getKey = key
 //@   ghost_exit $getRes = vn
-//@ extern func (e *FunctionCall) EvaluateArgumentList(dataContext, memory) (args, err)
-//@   modifies @actions
-//@   ensures reslogMono()
-//@   ensures atomsAboveUntouched(e)
-//@   ensures forall re *RuleEntry :: old(re.Retracted) ==> re.Retracted
-//@   ensures forall d Ref :: old($complete[d]) ==> $complete[d]
+// ArgumentList.Evaluate and FunctionCall.EvaluateArgumentList are CHECKED against their bodies (they were assumed): nil is
+// returned only when EVERY argument expression was evaluated successfully, in which case the i-th result is the value of the i-th
+// argument expression; the first failure is returned. What the nested evaluations may touch stays ASSUMED (A-NESTED).
+//@ func (e *ArgumentList) Evaluate(dataContext, memory) (values, err)
+//@   serves C01 C04 C13 C14
+//@   requires $depth >= 0 && treeWF()
+//@   modifies @memo, $exprRes, $varRes, $atomRes, @reslog, $atomErrN
+//@   invariant@1 sofar: len(values) == len(e.Arguments) && $atomErrN == old($atomErrN) && e == old(e) && $depth == old($depth) && (forall j int {e.Arguments[j]} :: 0 <= j && j < $i ==> e.Arguments[j] != nil && e.Arguments[j].Evaluated && values[j] == e.Arguments[j].Value)
+//@   invariant@1 monoE: forall x *Expression :: old(x.Evaluated) ==> x.Evaluated && x.Value == old(x.Value)
+//@   invariant@1 monoA: forall a *ExpressionAtom :: old(a.Evaluated) ==> a.Evaluated && a.Value == old(a.Value)
+//@   invariant@1 mono: reslogMono()
+//@   invariant@1 argskept: forall l *ArgumentList :: l.Arguments == old(l.Arguments)
+//@   ensures monoE: forall x *Expression :: old(x.Evaluated) ==> x.Evaluated && x.Value == old(x.Value)
+//@   ensures monoA: forall a *ExpressionAtom :: old(a.Evaluated) ==> a.Evaluated && a.Value == old(a.Value)
+//@   ensures[C01,C04,C14] allevaluated: err == nil ==> len(values) == len(e.Arguments) && (forall j int :: 0 <= j && j < len(e.Arguments) ==> e.Arguments[j].Evaluated && values[j] == e.Arguments[j].Value)
+//@   ensures[C14] noswallow: err == nil ==> $atomErrN == old($atomErrN)
+//@   ensures mono: reslogMono()
+//@ func (e *FunctionCall) EvaluateArgumentList(dataContext, memory) (args, err)
+//@   serves C01 C04 C13 C14
+//@   requires $depth >= 0 && treeWF()
+//@   modifies @actions, $atomErrN
+//@   ensures mono: reslogMono()
+//@   ensures[C01,C04,C14] allevaluated: err == nil ==> len(args) == len(e.ArgumentList.Arguments) && (forall j int :: 0 <= j && j < len(e.ArgumentList.Arguments) ==> e.ArgumentList.Arguments[j].Evaluated && args[j] == e.ArgumentList.Arguments[j].Value)
+//@   ensures[C14] noswallow: err == nil ==> $atomErrN == old($atomErrN)
+//@   trusted_ensures atomsAboveUntouched(e)
+//@   trusted_ensures forall re *RuleEntry :: old(re.Retracted) ==> re.Retracted
+//@   trusted_ensures forall d Ref :: old($complete[d]) ==> $complete[d]
 //@   panic_ensures forall re *RuleEntry :: old(re.Retracted) ==> re.Retracted
 //@   panic_ensures forall d Ref :: old($complete[d]) ==> $complete[d]
 //@ extern func (n model.ValueNode) CallFunction(funcName, args) (ret, err)
@@ -596,9 +628,10 @@ package ast
 //@ extern pure func fn_IsMap_0(n Ref) bool
 //@ macro func intoCollection(e *Variable) bool { return e.Variable != nil && (len(e.Name) == 0 || fn_IsMap_0(e.Variable.ValueNode)) }
 //@ func (e *Variable) Assign(newVal, dataContext, memory) (err)
-//@   serves C01 C02 C04 C08 C13
-//@   requires treeWF()
-//@   modifies @memo, @setlog, $loc, $varRes, $exprRes, $atomRes, @reslog, $memResetN
+//@   serves C01 C02 C04 C08 C13 C14
+//@   requires $depth >= 0 && treeWF()
+//@   modifies @memo, @setlog, $loc, $varRes, $exprRes, $atomRes, @reslog, $memResetN, $atomErrN
+//@   ensures[C14] noswallow: err == nil ==> $atomErrN == old($atomErrN)
 //@   ghost_entry $asgN = $asgN + 1
 //@   ghost_entry $asgVar = e
 //@   ghost_entry $asgVal = newVal
